@@ -6,12 +6,11 @@ Decided structurally (clause level):
     to which outcome, and a constructed value stores the very token that was tested.
  K  Clone is field-wise: the value returned by every `Clone::clone` of a cipher (or
     inner key-holder) type has each field equal to the clone/copy of the same field of
-    `self` (forward provenance dataflow over the clone body; derived or hand-written).
- D  same derivation: for every `From<Enc>` / `From<&Enc>` conversion T <- Enc the set of
-    /repo free functions reached by `T::new` equals the union of those reached by
-    `Enc::new` and by the conversion; by-value conversions delegate to the by-reference
-    one or reach the same routines.
-Not decided here: value-level equality of the derived round keys (needs the term engine).
+    `self` (forward provenance dataflow over the clone body; derived or hand-written); a body that is
+    not in that shape is decided semantically instead (clone_by_terms).
+ K2 an overriding `Clone::clone_from` leaves *self leaf-for-leaf equal to the source (terms).
+ D' converted = freshly keyed, by terms: see c12_terms.py.  (The older call-set agreement rule D is kept below for
+    reference but no longer used.)
 """
 import re
 from facts import *
